@@ -296,6 +296,25 @@ pub fn run(ctx: &mut Ctx) {
     }
     bet_reader_cases(ctx, if ctx.thorough { 4000 } else { 400 });
     // many reads in one process: every archive stands alone, nothing the reader learnt or spent on earlier files
+    // two added names that are ONE name to the archive (they differ only in ASCII case and slash direction): "either reports an
+    // error or ... every added file reads back bit-identically" - the build must refuse, it cannot honour both
+    for (vi, a, b) in [(0usize, "Dir\\File.txt", "dir/FILE.TXT"), (1, "Interface\\Icons\\Zap.blp", "INTERFACE\\ICONS\\ZAP.BLP"), (3, "readme.txt", "ReadMe.TXT"), (2, "a\\b\\c.dat", "A/B/C.DAT")] {
+        let path = dir.path().join(format!("dup{vi}.mpq"));
+        let (da, db) = (b"first content".to_vec(), b"second, different content".to_vec());
+        let built = std::panic::catch_unwind(|| ArchiveBuilder::new().version(VERS[vi]).listfile_option(ListfileOption::Generate)
+            .add_file_data(da.clone(), a).add_file_data(b"between".to_vec(), "other.bin").add_file_data(db.clone(), b).build(&path));
+        match built {
+            Err(_) => ctx.out.oracle(false, "build-panics", &format!("names {a} and {b}")),
+            Ok(Err(_)) => { ctx.out.oracle(true, "", ""); ctx.out.stat("c01.case_duplicate.refused"); }
+            Ok(Ok(())) => {
+                let got = Archive::open(&path).and_then(|mut x| Ok((x.read_file(a)?, x.read_file(b)?)));
+                let ok = matches!(&got, Ok((x, y)) if *x == da && *y == db);
+                ctx.out.oracle(ok, "case-duplicate-accepted", &format!("V{}: names {a} and {b} (one name to the archive) were both accepted; reading them back gives {:?}", vi + 1, got.as_ref().map(|(x, y)| (String::from_utf8_lossy(x).to_string(), String::from_utf8_lossy(y).to_string())).map_err(|e| e.to_string())));
+                ctx.out.stat("c01.case_duplicate.accepted");
+            }
+        }
+    }
+
     // (budgets, caches) may make a later, well-formed file unreadable - more than 1 GiB is read back in total
     {
         let path = dir.path().join("soak.mpq");
